@@ -1171,3 +1171,88 @@ func TestVerifC19_Policy(t *testing.T) {
 		t.Fatalf("C19: %d methods with a guarded effect are declared below write", bad)
 	}
 }
+
+// ---------------------------------------------------------------------------------------------
+// a token must stop working when it expires, also when it was used successfully before
+//
+// The matrix only presents tokens that are already expired when first seen. Here a short-lived
+// token is used while valid and again after its expiry, on a fresh connection and on the HTTP
+// connection that already carried the successful call. Wall clock: the token lives c19ShortTTL;
+// the second use happens at least 400 ms after the expiry instant (JWT expiry has no finer
+// semantics than "after ExpiresAt"). If the machine is so slow that the first use already comes
+// after the expiry the cell is recorded as inconclusive, never raised.
+
+const c19ShortTTL = 2 * time.Second
+
+func TestVerifC19_ExpiryAfterUse(t *testing.T) {
+	defer vk.Flush()
+	modes := c19Modes[:1] // authentication enabled
+	fx := c19Setup(t, modes)
+	srvKeys, _ := c19NewKeys(0x11)
+	mode := modes[0]
+	srv := fx.servers[mode.Name]
+	all := []auth.Permission{"public", "read", "write", "admin"}
+	// one method per declared level (the first of each that is not channel-returning)
+	picked := map[string]c19Method{}
+	for _, m := range fx.methods {
+		if _, ok := picked[m.Perm]; !ok && !m.chanOut {
+			picked[m.Perm] = m
+		}
+	}
+	for _, channel := range []string{"header", "query"} {
+		for _, lvl := range []string{"read", "write", "admin"} {
+			m, ok := picked[lvl]
+			if !ok {
+				continue
+			}
+			minted := time.Now()
+			tok, err := authtoken.NewSignedJWT(srvKeys.signer, all, c19ShortTTL)
+			if err != nil {
+				t.Fatalf("VERIF-INFRA C19: minting a token: %v", err)
+			}
+			cred := c19Cred{Name: "short-lived:" + channel, Presented: true, Valid: true, Perms: c19StrPerms(all)}
+			if channel == "header" {
+				cred.header = http.Header{perms.AuthKey: []string{"Bearer " + tok}}
+			} else {
+				cred.query = tok
+			}
+			conn := c19Dial(context.Background(), "http", srv.addr, cred, fx.byInternal, m.NS)
+			first := c19Call(srv, conn, m)
+			usedAt := time.Now()
+			desc := fmt.Sprintf("%s|short-lived|%s", m.Name(), channel)
+			if !first.Reached {
+				if usedAt.Sub(minted) >= c19ShortTTL {
+					vk.Record(desc, []string{"expiry-after-use=inconclusive-too-slow"}, false, nil)
+					conn.Close()
+					continue
+				}
+				conn.Close()
+				t.Fatalf("C19: method %s with a valid all-permission token (ttl %v, %v old): expected the call to reach the module, observed %s: %s",
+					m.Name(), c19ShortTTL, usedAt.Sub(minted), first.Client, first.Detail)
+			}
+			time.Sleep(time.Until(minted.Add(c19ShortTTL + 400*time.Millisecond)))
+			expired := cred
+			expired.Valid = false
+			expired.Name = "short-lived-after-expiry:" + channel
+			for _, how := range []string{"same-connection", "new-connection"} {
+				c := conn
+				if how == "new-connection" {
+					c = c19Dial(context.Background(), "http", srv.addr, expired, fx.byInternal, m.NS)
+				}
+				o := c19Call(srv, c, m)
+				cell, _ := c19Judge(m, expired, mode, "http", o)
+				vk.Record(desc+"|"+how, []string{"expiry-after-use=" + how, "perm=" + m.Perm, "channel=" + channel}, true, func() any { return cell })
+				if o.Reached {
+					cell.Violation = fmt.Sprintf("C19: method %s (declared perm %q): a token that expired %v ago still reaches the module on a %s after it was used successfully while valid (token via %s); expected a refusal",
+						m.Name(), m.Perm, time.Since(minted.Add(c19ShortTTL)).Round(time.Millisecond), how, channel)
+					path := c19WriteReplay(cell, 9000)
+					t.Fatalf("%s\nreplay: %s", cell.Violation, path)
+				}
+				if how == "new-connection" {
+					c.Close()
+				}
+			}
+			conn.Close()
+		}
+	}
+}
